@@ -24,3 +24,19 @@ class Gate:
     @_memoized
     def _get_passive_block(self, connector, config):
         return connector.np.cos(self._params["theta"])
+
+
+# module-level form: a dict at module level filled under a key that omits one of the inputs of the cached computation
+_decomposition_cache = {}
+
+
+def _decompose(state, instruction):
+    matrix = instruction._params["adjacency_matrix"]
+    key = (matrix.shape, matrix.tobytes())
+    if key not in _decomposition_cache:
+        _decomposition_cache[key] = _expensive(matrix, instruction._params["mean_photon_number"])
+    return _decomposition_cache[key]
+
+
+def _expensive(matrix, mean_photon_number):
+    return matrix * mean_photon_number
